@@ -38,20 +38,23 @@ PROPS = {
     },
     "C09": {
         "lean": "Props.C09",
-        "domains": [{"name": "loadrep"}, {"name": "loaddeep"}],
+        "domains": [{"name": "loadrep"}, {"name": "loaddeep"}, {"name": "dotenvchain"}],
         "trusted": ["repeated loads in one process exercise the Go runtime's map iteration orders and goroutine schedules "
                     "(25/40 loads quick, 100/200 thorough per tree); the theorem, not the sample, covers all orders",
                     "extract/load.go finds map ranges syntactically (identifiers/fields/calls whose map type is declared in "
                     "the scanned packages, plus PredecessorMap/AdjacencyMap/godotenv)"],
-        "assumptions": ["compile-time determinism (templating, sh: variables) is outside this model: only the Gen.NondetSites "
-                        "classification covers compiler.go / variables.go",
+        "assumptions": ["compile-time determinism (templating, sh: variables) is outside the Load model: the Gen.NondetSites "
+                        "classification covers compiler.go / variables.go, and the values of global dotenv entries that refer to each "
+                        "other are modelled (Vars.Dotenv) and compared on repeated loads (domain dotenvchain)",
                         "C09_partial is proved for the sibling includes of one parent (any permutation), not for arbitrary "
                         "topological orders of arbitrary graphs"],
         "level_text": "Full statement (every topological order and per-edge order give the same merged Taskfile) is refuted by "
                       "machine-checked counterexamples (C09_sigma_counterexample, C09_eps_counterexample: rows 13, 13b). For the "
                       "canonical schedule of the fixed code (stable sort by key, edge data in declaration order, parents in key "
                       "order) theorem C09: the result is invariant under every permutation of the vertex and edge enumerations; "
-                      "all_sites_classified over the regenerated Gen.NondetSites; edges_in_declaration_order over Gen.Load. "
+                      "all_sites_classified over the regenerated Gen.NondetSites; edges_in_declaration_order over Gen.Load; "
+                      "C09_dotenv_order_indep: the templated values of a global dotenv file (variables and command environment) are the same for "
+                      "every order in which godotenv's map hands out the entries (dotenv_sites_sorted pins the sorted loops). "
                       "Tie: every generated tree is loaded repeatedly in one process; all dumps must coincide and equal the model.",
         "level_note": "Trusted: Lean kernel; extractor's syntactic map typing; harness. Sampled: runtime schedules (the theorem "
                       "quantifies over all of them for the canonical schedule).",
